@@ -299,6 +299,10 @@ def rule_r4(ctx) -> List[R.Inst]:
                                 f"offset is the earliest time of '{unparse(v.func.value)}', which includes notes and scroll "
                                 f"velocities: an object before the first tempo point shifts the whole written chart",
                                 construct=f"{conv.name}.{meth}: {unparse(st)}"))
+        elif isinstance(v, ast.Call) and call_name(v) in ("last_offset", "max") and ".bpms" in txt:
+            insts.append(R.viol(rid, key, conv.file, st.lineno,
+                                f"offset is the time of the LAST tempo point ('{txt}'): beat 0 of the written file must be the first one; a "
+                                f"chart with two tempo points is written shifted by their distance", construct=f"{conv.name}.{meth}: {unparse(st)}"))
         else:
             insts.append(R.undec(rid, key, conv.file, st.lineno, f"derivation of the file offset not recognised: {txt[:80]}"))
     return insts
